@@ -34,3 +34,13 @@ pub mod object_storage;
 pub mod pool_type;
 pub mod print_format;
 pub mod print_options;
+
+/// Verification hooks (add-only): thin public wrappers around crate-private
+/// functions so that the external harness can call the real implementation.
+#[cfg(feature = "verif_hooks")]
+pub mod verif_hooks {
+    /// The real `helper::split_from_semicolon`.
+    pub fn split_from_semicolon(sql: &str) -> Vec<String> {
+        crate::helper::split_from_semicolon(sql)
+    }
+}
